@@ -85,9 +85,10 @@ def v_list(xs):
 
 
 # ------------------------------------------------------------------------------------------------ backends
-def make_backend(name):
+def make_backend(name, opts=None):
+    """opts: constructor options of the engine (SLOS: use_symbolic, mask; MPS: cutoff)."""
     from perceval.backends import NaiveBackend, SLOSBackend, SLAPBackend, MPSBackend
-    return {"Naive": NaiveBackend, "SLOS": SLOSBackend, "SLAP": SLAPBackend, "MPS": MPSBackend}[name]()
+    return {"Naive": NaiveBackend, "SLOS": SLOSBackend, "SLAP": SLAPBackend, "MPS": MPSBackend}[name](**(opts or {}))
 
 
 def wb_backend(b):
@@ -212,6 +213,15 @@ def op_simulator(s, circuits, op):
         s.keep_heralds(bool(op[1]))
     elif k == "precision":
         s.set_precision(op[1])
+    elif k == "selection":      # the other route to the same settings: [filter | None, postselect | None, heralds | None]
+        kw = {}
+        if op[1] is not None:
+            kw["min_detected_photons_filter"] = op[1]
+        if op[2] is not None:
+            kw["postselect"] = PostSelect(op[2]) if op[2] else PostSelect()
+        if op[3] is not None:
+            kw["heralds"] = {int(a): b for a, b in op[3]}
+        s.set_selection(**kw)
     elif k == "q":
         q = op[1]
         if q == "probs":
@@ -265,6 +275,22 @@ def op_stepper(s, circuits, op):
         PARAMS[op[1]].set_value(op[2])
     elif k == "filter":
         s.set_min_detected_photons_filter(op[1])
+    elif k == "heralds":
+        s.set_heralds({int(a): b for a, b in op[1]})
+    elif k == "keep_heralds":
+        s.keep_heralds(bool(op[1]))
+    elif k == "precision":
+        s.set_precision(op[1])
+    elif k == "selection":
+        from perceval.utils import PostSelect
+        kw = {}
+        if op[1] is not None:
+            kw["min_detected_photons_filter"] = op[1]
+        if op[2] is not None:
+            kw["postselect"] = PostSelect(op[2]) if op[2] else PostSelect()
+        if op[3] is not None:
+            kw["heralds"] = {int(a): b for a, b in op[3]}
+        s.set_selection(**kw)
     elif k == "q":
         q = op[1]
         if q == "probs":
@@ -360,6 +386,9 @@ def run_history(target, circuits, hist, whitebox, emit):
         try:
             if kind == "processor" and op[0] == "new":
                 obj = ProcBox(arg, circuits[op[1]])
+                v = None
+            elif kind == "backend" and op[0] == "new":
+                obj = make_backend(arg, op[1])       # the engine with constructor options
                 v = None
             else:
                 v = op_f(obj, circuits, op)
